@@ -37,6 +37,10 @@ def gen_dl(rng, n):
             ops.append(("COPYDL", rng.randrange(4), rng.randrange(4)))
         elif r < 0.34:
             ops.append(("ASSIGNDL", rng.randrange(4), rng.randrange(4)))
+        elif r < 0.37:
+            ops.append(("HOLD", rng.randrange(2), rng.randrange(4)))
+        elif r < 0.39:
+            ops.append(("DROPH", rng.randrange(2)))
         elif r < 0.48:
             ops.append(("DROPDL", rng.randrange(4)))
         elif r < 0.68:
@@ -73,6 +77,7 @@ class DlModel:
         self.inst = []          # dicts: handle, lib, holders, closed
         self.dl = {}            # slot -> instance index
         self.sym = {}           # slot -> (instance index, function)
+        self.hold_ = {}         # slot -> instance index (copies of dl::get())
         self.outlived = False
 
     def hold(self, i):
@@ -177,6 +182,20 @@ def judge_dl(ops, lines, S, case):
                 if dst in M.dl:
                     M.drop(M.dl[dst])
                 M.dl[dst] = i
+        elif op[0] == "HOLD":
+            hs, ds = op[1], op[2]
+            if (res == "H ok") != (ds in M.dl):
+                fail("hold-result", what + " -> " + res)
+                return
+            if ds in M.dl:
+                i = M.dl[ds]
+                M.hold(i)
+                if hs in M.hold_:
+                    M.drop(M.hold_[hs])
+                M.hold_[hs] = i
+        elif op[0] == "DROPH":
+            if op[1] in M.hold_:
+                M.drop(M.hold_.pop(op[1]))
         elif op[0] == "DROPDL":
             if op[1] in M.dl:
                 i = M.dl.pop(op[1])
@@ -272,6 +291,7 @@ def judge_dl(ops, lines, S, case):
         x["holders"] = 0
     M.dl.clear()
     M.sym.clear()
+    M.hold_.clear()
     idx = len(ops) - 1
     if not settle(ev, "end of history"):
         return
